@@ -221,6 +221,12 @@ pub struct World {
     /// fds on which sozu itself shut down its write side
     pub shut_wr: std::collections::BTreeSet<i32>,
     pub hup_masked: u64,
+    /// accepted client sockets on which sozu has performed I/O and which it has not closed ("being served")
+    pub served: std::collections::BTreeSet<i32>,
+    pub max_served: usize,
+    /// per simulated client IP: sockets being served
+    pub accepted_peer: BTreeMap<i32, SocketAddr>,
+    pub max_open_accepted: usize,
 }
 
 impl World {
@@ -257,6 +263,10 @@ impl World {
             token_fd: BTreeMap::new(),
             shut_wr: Default::default(),
             hup_masked: 0,
+            served: Default::default(),
+            max_served: 0,
+            accepted_peer: BTreeMap::new(),
+            max_open_accepted: 0,
         })
     }
 
@@ -648,6 +658,8 @@ impl World {
         self.so_error.remove(&fd);
         self.rearm.remove(&fd);
         self.shut_wr.remove(&fd);
+        self.served.remove(&fd);
+        self.accepted_peer.remove(&fd);
         if let Some((_, _, data)) = self.epoll_regs.get(&fd) { let d = *data; if self.token_fd.get(&d) == Some(&fd) { self.token_fd.remove(&d); } }
         self.epoll_regs.remove(&fd);
         if self.sozu_fds.contains_key(&fd) { self.logf(|| format!("sozu close fd={fd}")); }
@@ -761,6 +773,9 @@ impl World {
     pub fn post_io(&mut self, fd: i32, is_write: bool, req: usize, r: i64) {
         match self.sozu_fds.get(&fd) { Some('a') | Some('c') => {}, _ => return }
         self.logf(|| format!("sozu {} fd={fd} req={req} -> {r}", if is_write { "write" } else { "read" }));
+        if self.sozu_fds.get(&fd) == Some(&'a') && self.served.insert(fd) {
+            if self.served.len() > self.max_served { self.max_served = self.served.len(); }
+        }
         if is_write {
             self.stats.sozu_writes += 1;
             if r >= 0 && (r as usize) < req { self.stats.sozu_partial_writes += 1; }
